@@ -122,6 +122,12 @@ func c08(c *Ctx) {
 			starts[f] = true
 		}
 	}
+	deltaFns := map[*FuncInfo]bool{}
+	for _, a := range aggSpecs {
+		if f := ax.Func("(*" + a.typ + ").delta"); f != nil {
+			deltaFns[f] = true
+		}
+	}
 	cnt := map[string]int{}
 	for _, acc := range ax.fieldAccesses(starts) {
 		if !acc.Write {
@@ -129,7 +135,34 @@ func c08(c *Ctx) {
 		}
 		outer := ax.Outer(acc.F)
 		cnt[outer.Name]++
-		c.Check(strings.HasSuffix(outer.Name, ").delta"), "R2", "aggregate|"+outer.Name+"|write of start #"+itoa(cnt[outer.Name])+" only in delta", at(ax.M, acc.Sel.Pos()),
+		okWriter := deltaFns[outer]
+		if !okWriter {
+			// a shared implementation (or a helper): every caller is a delta method, or a method that selects the implementation
+			// with a constant under which this write is pruned away
+			sites := ax.Calls[outer.Obj]
+			okWriter = outer.Obj != nil && len(sites) > 0
+			for _, cs := range sites {
+				m := ax.Outer(cs.In)
+				if deltaFns[m] {
+					continue
+				}
+				spec, _ := ax.delegateUnder(m)
+				present := true
+				if spec != nil && spec != m && spec.Obj == outer.Obj {
+					present = false
+					ast.Inspect(spec.Body(), func(nd ast.Node) bool {
+						if nd == ast.Node(acc.Sel) {
+							present = true
+						}
+						return !present
+					})
+				}
+				if present {
+					okWriter = false
+				}
+			}
+		}
+		c.Check(okWriter, "R2", "aggregate|"+outer.Name+"|write of start #"+itoa(cnt[outer.Name])+" only in delta", at(ax.M, acc.Sel.Pos()),
 			"start advances only when a delta interval is closed", "start is modified outside a delta collection: reported intervals overlap or leave gaps")
 	}
 
@@ -151,6 +184,9 @@ func c08(c *Ctx) {
 					if fv, _ := fieldOf(info, l); fv != nil && fv.Name() == "Temporality" && fv.Pkg().Path() == metricdata {
 						if k := constObj(info, as.Rhs[i]); k != nil {
 							got = append(got, k.Name())
+						} else if v, bound := fn.Spec[objOf(info, as.Rhs[i])]; bound {
+							// the shared implementation labels with its mode parameter: the constant this method passes
+							got = append(got, constNameOf(fv.Pkg(), fv.Type(), v))
 						} else {
 							got = append(got, exprStr(as.Rhs[i]))
 						}
